@@ -242,6 +242,34 @@ def main(src, out):
     gs = total_map(arms(match_body(fn_block(envrs, impl_env, 'get_string', 'get_string'), 'get_string'), 'get_string'), skeys, 'MarkerValueString', accessor, 'MarkerEnvironment::get_string')
     gv = total_map(arms(match_body(fn_block(envrs, impl_env, 'get_version', 'get_version'), 'get_version'), 'get_version'), vkeys, 'MarkerValueVersion', accessor, 'MarkerEnvironment::get_version')
     fields = sorted(set(gs.values()) | set(gv.values()))
+    # Scheme (src/verbatim_url.rs): variants, Scheme::parse (text -> variant), Display (variant -> text), is_file
+    vurl = strip_comments(open(src + '/verbatim_url.rs').read())
+    schemes = enum_variants(vurl, 'Scheme')
+    sparse = []
+    for pat, expr in arms(match_body(fn_block(vurl, r'impl Scheme\s*\{', 'parse', 'Scheme::parse'), 'Scheme::parse'), 'Scheme::parse'):
+        m = re.fullmatch(r'"([^"\\]*)"', pat)
+        if m:
+            mm = re.fullmatch(r'Some\(Self::(\w+)\)', expr.strip())
+            if not mm or mm.group(1) not in schemes:
+                raise Shape('Scheme::parse: unexpected expression %r' % expr)
+            sparse.append((m.group(1), mm.group(1)))
+        elif pat == '_' and expr.strip() == 'None':
+            continue
+        else:
+            raise Shape('Scheme::parse: unexpected pattern %r' % pat)
+
+    def write_lit(e):
+        m = re.fullmatch(r'write!\(f,\s*"([^"\\{}]*)"\)', e.strip())
+        if not m:
+            raise Shape('expression %r is not write!(f, "literal")' % e)
+        return m.group(1)
+    sdisp_scheme = total_map(arms(match_body(fn_block(vurl, r'impl std::fmt::Display for Scheme\s*\{', 'fmt', 'Display for Scheme'), 'Display for Scheme'), 'Display for Scheme'),
+                             schemes, 'Self', write_lit, 'Display for Scheme')
+    isfile = fn_block(vurl, r'impl Scheme\s*\{', 'is_file', 'Scheme::is_file')
+    m = re.fullmatch(r'\s*matches!\(self,\s*((?:Self::\w+\s*\|?\s*)+)\)\s*', isfile)
+    if not m:
+        raise Shape('Scheme::is_file has another shape')
+    file_schemes = re.findall(r'Self::(\w+)', m.group(1))
     arch = block_after(librs, r'fn looks_like_archive\b[^{]*\{', 'looks_like_archive')
     m = re.search(r'matches!\(\s*\(pre_extension, extension\),\s*\(_,\s*((?:"\w+"\s*\|?\s*)+)\)\s*\|\s*\(Some\("tar"\),\s*((?:"\w+"\s*\|?\s*)+)\)\s*\)', arch)
     if not m:
@@ -285,6 +313,10 @@ def main(src, out):
     w.append('(* the variable order of the diagrams: derived Ord of `Variable` (algebra.rs) and of `MarkerValueExtra` (tree.rs), i.e. declaration order *)')
     w.append('Definition variable_order : list string := [%s].' % '; '.join('"%s"' % e for e in variable_order))
     w.append('Definition extra_value_order : list string := [%s].' % '; '.join('"%s"' % e for e in extra_value_order))
+    enum('scheme', 'Sch_', schemes)
+    w.append('Definition scheme_of_text : list (string * scheme) := [%s].' % '; '.join('("%s", Sch_%s)' % (t, v) for t, v in sparse))
+    fn('scheme_text', 'scheme', 'Sch_', schemes, sdisp_scheme, lambda r: '"%s"' % r, 'string')
+    w.append('Definition scheme_is_file (x : scheme) : bool := match x with %s => true | _ => false end.' % ' | '.join('Sch_' + v for v in file_schemes))
     w.append('Definition archive_ext : list string := [%s].' % '; '.join('"%s"' % e for e in ext1))
     w.append('Definition archive_tar_ext : list string := [%s].' % '; '.join('"%s"' % e for e in ext2))
     text = '\n'.join(w) + '\n'
